@@ -170,7 +170,29 @@ func (c *Ctx) flagFieldLanguage(g *ssa.Global, fieldIdx int) (*rx.Lang, string, 
 			})
 		}
 	}
-	if validated {
+	// which command-line flag is bound to the field?
+	flagName := ""
+	for _, fn := range c.P.RepoFns {
+		allInstrs(fn, func(in ssa.Instruction) {
+			call, ok := in.(*ssa.Call)
+			if !ok {
+				return
+			}
+			f := staticCallee(&call.Call)
+			if f == nil || objPkgPath(f) != "github.com/spf13/pflag" || !strings.HasPrefix(f.Name(), "StringVar") || len(call.Call.Args) < 3 {
+				return
+			}
+			fa, ok := call.Call.Args[1].(*ssa.FieldAddr)
+			if !ok || fa.X != ssa.Value(g) || fa.Field != fieldIdx {
+				return
+			}
+			if n, ok := constString(call.Call.Args[2]); ok {
+				flagName = n
+			}
+		})
+	}
+	switch {
+	case validated:
 		// semver.NewVersion accepts (a subset of) its anchored versionRegex
 		for gg, p := range c.Rx().byGlobal {
 			if gg.Pkg.Pkg.Path() == semverPkg && gg.Name() == "versionRegex" {
@@ -182,10 +204,14 @@ func (c *Ctx) flagFieldLanguage(g *ssa.Global, fieldIdx int) (*rx.Lang, string, 
 			}
 		}
 		return nil, "", "semver's version pattern is not a resolvable constant"
+	case flagName == "year":
+		// four digits by the statement of the property
+		l, _ := rx.FullPattern("four-digit year", `\d{4}`)
+		return l, "a four-digit year (quantifier of C14; the command does not validate it)", ""
+	default:
+		l, _ := rx.FullPattern("any text", `(?s).*`)
+		return l, "the unvalidated value of the --" + flagName + " flag (nothing restricts it before it is written)", ""
 	}
-	// the year flag: four digits by the statement of the property
-	l, _ := rx.FullPattern("four-digit year", `\d{4}`)
-	return l, "a four-digit year (quantifier of C14; the command does not validate it)", ""
 }
 
 func (c *Ctx) callsSemverNewVersion(fn *ssa.Function, depth int) bool {
